@@ -99,3 +99,14 @@ Definition admissible (k : solver_kind) (m : mclass) : bool :=
 Definition mclass_consistent (m : mclass) : bool :=
   (m_complex m || Bool.eqb (m_herm m) (m_sym m)) &&      (* real: Hermitian = symmetric *)
   (negb (m_diag m) || m_sym m).                         (* diagonal matrices are symmetric *)
+
+(* decidable equality of results, used by the generated correspondence cases *)
+Definition kind_eqb (a b : solver_kind) : bool :=
+  match a, b with
+  | KDenseQR, KDenseQR | KDiagonal, KDiagonal | KSparseCholScikit, KSparseCholScikit
+  | KSparseCholCVXOPT, KSparseCholCVXOPT | KSparseLU, KSparseLU | KDenseCholesky, KDenseCholesky
+  | KDenseLU, KDenseLU | KAssertionError, KAssertionError | KNoReturn, KNoReturn => true
+  | KPardiso s h p, KPardiso s' h' p' => obeq s s' && obeq h h' && obeq p p'
+  | KDenseLDL h, KDenseLDL h' => obeq h h'
+  | _, _ => false
+  end.
